@@ -229,7 +229,7 @@ func c09RunName(idx int, name string, v2 bool, multiFrame bool, versions []*mess
 							why = "peer too old for reserved-prefix attributes"
 						}
 						res.Violate(fmt.Sprintf("C09/leak/%s/wl=%d/%v", kind, wi, st), "%s: private attribute on the wire (%s): name=%v value=%v", id, why, hasName, hasCanary)
-						res.Outcome("VIOLATION-leak")
+						res.Outcome("finding-leak")
 						continue
 					}
 					if st == stEncrypting && nprot == 0 {
@@ -238,7 +238,7 @@ func c09RunName(idx int, name string, v2 bool, multiFrame bool, versions []*mess
 					if hasCanary && st.keyedClear() {
 						if bytes.Contains(clear, []byte(canary)) || containsAttr(bytes.ToLower(clear), lowName) {
 							res.Violate(fmt.Sprintf("C09/secret-in-clear/%s", kind), "%s: keyed stream sent the private attribute outside an encrypted frame", id)
-							res.Outcome("VIOLATION-clear")
+							res.Outcome("finding-clear")
 							continue
 						}
 					}
